@@ -252,4 +252,4 @@ def run_case(c):
 
 def stages(tier):
     return [HypStage("chains", lambda t: cases(t), run_case, {"quick": 250, "thorough": 8000},
-                     budget_s={"quick": 100, "thorough": 1200})]
+                     budget_s={"quick": 300, "thorough": 1200})]
